@@ -49,7 +49,7 @@ var c14BaseSpecs = map[string]string{
 }
 var c14BaseNames = []string{"special", "file", "opaque", "ipv4"}
 
-var c14Refs = []string{"", "#g", "?z=1", "x/../y", "/abs", "//h2/x", "..", "C|/w", "http://é.test/a b"}
+var c14Refs = []string{"", "#g", "?z=1", "x/../y", "/abs", "//h2/x", "..", "C|/w", "http://é.test/a b", "file:d/e", "http:d/e"}
 
 // buildEnv creates the shared objects the given calls need.
 func buildEnv(names []string) *c14Env {
